@@ -51,6 +51,8 @@ type env struct {
 	samples map[string]bool
 	viols   map[string]*pendingViolation
 	misses  map[string]int
+	// unavailable: paths whose listener cannot be started in this environment.
+	unavailable map[string]string
 }
 
 // pendingViolation is the best witness seen so far for one key.  vkit keeps
@@ -162,6 +164,27 @@ func (e *env) degraded(path string) (ok bool) {
 	return e.misses[path] >= missLimit
 }
 
+// startFailure accounts an instance that could not be started.  The
+// bind-to-device path needs CAP_NET_RAW; where that is missing the path is
+// skipped and reported, it does not silently count as held.
+func (e *env) startFailure(p *pathDef, err error) {
+	e.infraFailure("instance-start:"+p.name, err.Error())
+	if errors.Is(err, errBTDUnavailable) {
+		e.mu.Lock()
+		if e.unavailable[p.name] == "" {
+			e.unavailable[p.name] = err.Error()
+		}
+		e.mu.Unlock()
+	}
+}
+
+func (e *env) pathUnavailable(p *pathDef) (ok bool) {
+	e.mu.Lock()
+	defer e.mu.Unlock()
+
+	return e.unavailable[p.name] != ""
+}
+
 func (e *env) nextWarm(kind warmKind) (wire []byte) { return e.gen.msg(e.warmN.Add(1), kind) }
 
 func (e *env) infraFailure(where, what string) {
@@ -179,11 +202,15 @@ func (e *env) infraFailure(where, what string) {
 type pathDef struct {
 	name   string
 	server tbench.Server
-	group  string // "", "stream", "doq", "doh-get": which path-specific probes apply
+	// btd: plain-DNS UDP received through the bind-to-device interface
+	// listener (internal/bindtodevice) instead of the server's own socket.
+	btd   bool
+	group string // "", "stream", "doq", "doh-get": which path-specific probes apply
 }
 
 var allPaths = []*pathDef{
 	{name: "udp", server: tbench.SrvDNS},
+	{name: "udp-btd", btd: true},
 	{name: "tcp", server: tbench.SrvDNS, group: "stream"},
 	{name: "dot", server: tbench.SrvDoT, group: "stream"},
 	{name: "doq", server: tbench.SrvDoQ, group: "doq"},
@@ -265,7 +292,7 @@ func singleExp(msg []byte) (px *pexp) {
 
 func expectOn(p *pathDef, bt *built) (px *pexp) {
 	switch p.name {
-	case "udp", "doh-post":
+	case "udp", "udp-btd", "doh-post":
 		return singleExp(bt.msg)
 	case "doh-get":
 		if bt.rawDNSParam == nil {
@@ -371,10 +398,54 @@ type driver interface {
 	close()
 }
 
-func newDriver(e *env, p *pathDef, b *tbench.Bench) (d driver, err error) {
+// instance is one set of listeners serving one path: a transport bench, or a
+// plain-DNS server behind a bind-to-device interface listener.
+type instance struct {
+	b   *tbench.Bench
+	btd *btdInstance
+}
+
+func startInstance(p *pathDef) (in *instance, err error) {
+	if p.btd {
+		btd, bErr := startBTD()
+		if bErr != nil {
+			return nil, bErr
+		}
+
+		return &instance{btd: btd}, nil
+	}
+
+	b, err := tbench.Start(benchConfig(p.server))
+	if err != nil {
+		return nil, err
+	}
+
+	return &instance{b: b}, nil
+}
+
+func (in *instance) close() {
+	if in.btd != nil {
+		in.btd.close()
+	}
+
+	if in.b != nil {
+		_ = in.b.Close()
+	}
+}
+
+func (in *instance) udpAddr() (addr string) {
+	if in.btd != nil {
+		return in.btd.addr
+	}
+
+	return in.b.UDPAddr
+}
+
+func newDriver(e *env, p *pathDef, in *instance) (d driver, err error) {
+	b := in.b
 	switch p.name {
-	case "udp":
-		return &udpDriver{e: e, b: b, path: p.name}, nil
+	case "udp", "udp-btd":
+		return &udpDriver{e: e, addr: in.udpAddr(), path: p.name}, nil
 	case "tcp":
 		return &streamDriver{e: e, b: b, path: p.name}, nil
 	case "dot":
@@ -404,7 +475,7 @@ func newDriver(e *env, p *pathDef, b *tbench.Bench) (d driver, err error) {
 
 type udpDriver struct {
 	e    *env
-	b    *tbench.Bench
+	addr string
 	path string
 
 	// late holds sockets of recent probes; a response that arrives after the
@@ -429,7 +500,7 @@ const lateRing = 48
 
 func (d *udpDriver) other(w []byte) (raw []byte, ok bool) {
 	for attempt := 0; attempt < d.e.attempts(d.path); attempt++ {
-		c, err := d.b.DialUDP()
+		c, err := tbench.DialUDP(d.addr)
 		if err != nil {
 			d.e.infraFailure("udp-dial", err.Error())
 
@@ -449,7 +520,7 @@ func (d *udpDriver) other(w []byte) (raw []byte, ok bool) {
 }
 
 func (d *udpDriver) probe(bt *built, px *pexp) (o observation) {
-	c, err := d.b.DialUDP()
+	c, err := tbench.DialUDP(d.addr)
 	if err != nil {
 		d.e.infraFailure("udp-dial", err.Error())
 
@@ -501,7 +572,7 @@ func (d *udpDriver) probe(bt *built, px *pexp) (o observation) {
 
 			if len(dg) >= 2 && dg[0] == w[0] && dg[1] == w[1] {
 				gotOther = true
-				d.e.judgeOther("udp", "after-probe/"+warmKindNames[d.kind], w, dg)
+				d.e.judgeOther(d.path, "after-probe/"+warmKindNames[d.kind], w, dg)
 
 				break
 			}
